@@ -230,7 +230,7 @@ def run_proc(argv, cwd, env, stdin=None, timeout=TIMEOUT_S, stdout_to=None,
     try:
         p = subprocess.Popen(argv, cwd=cwd, env=env, stdin=subprocess.PIPE if stdin is not None else subprocess.DEVNULL,
                              stdout=out_f, stderr=subprocess.PIPE, preexec_fn=preexec,
-                             close_fds=True)
+                             close_fds=True, start_new_session=True)
     except OSError as e:
         if fh:
             fh.close()
@@ -239,8 +239,15 @@ def run_proc(argv, cwd, env, stdin=None, timeout=TIMEOUT_S, stdout_to=None,
         out, err = p.communicate(stdin, timeout=timeout)
         timed_out = False
     except subprocess.TimeoutExpired:
-        p.kill()
-        out, err = p.communicate()
+        # kill the whole process group: a backend child may hold the pipes
+        try:
+            os.killpg(p.pid, signal.SIGKILL)
+        except OSError:
+            p.kill()
+        try:
+            out, err = p.communicate(timeout=10)
+        except subprocess.TimeoutExpired:
+            out, err = b"", b""
         timed_out = True
     if fh:
         fh.close()
